@@ -1,6 +1,7 @@
 check("C01", "exploration", "runtime monitoring: delivery oracle (result vs. device-side per-stream payload record) over seeded + exhaustive chunkings",
       "The real shell/exec_out/streaming_shell/root of both implementations run against a reacting device simulator; every result is compared with what the "
       "simulator actually put on that stream. Thousands of generated chunkings/fragmentations plus all compositions of short multi-byte strings; "
+      "several generators consumed alternately by one actor (also on two device objects of one process, and across a close()+connect()), devices that write ahead or re-use stream ids; "
       "'held' means held on those executions.",
       "Trusted: the simulator's model of adbd stream behaviour (DESIGN.md 2.2), the harness decoder (Python's own utf8/backslashreplace), virtual clock.",
       "DESIGN.md section 4 C01")
@@ -45,7 +46,8 @@ check("C13", "exploration", "runtime monitoring: one-boolean model monitor over 
 check("C05", "exploration", "runtime monitoring: executable model of the expected host handshake compared with the recorded packet history; device model verifies signatures against its latest token",
       "The configuration grid (0..4 keys x accepting step x public-key outcome x invalid challenge position x callback kind x maxdata x stray packets x reconnect x both "
       "implementations) is enumerated completely in the thorough tier (covering sample in quick); for every configuration the host packet sequence, Sign() calls, callback count, "
-      "result/exception, `available`, adopted maxdata and the timeout used after the public key are compared with the model.",
+      "result/exception, `available`, adopted maxdata and the timeout used after the public key are compared with the model; stray packets also between a signature and its answer; "
+      "real signers over fragmented links, their key material compared before and after connect().",
       "Trusted: the model of expected host behaviour in checks/c05.py (written from the property statement and AOSP protocol.txt); keyed-hash stub signers (real RSA in a subset).",
       "DESIGN.md section 4 C05")
 check("C07", "exploration", "runtime monitoring: sync-record oracle at the simulator's filesystem, WRTE-size rule in the stream monitor, callback differential, real directories with cwd decoys",
@@ -60,7 +62,7 @@ check("C08", "exploration", "runtime monitoring: destination bytes vs. simulator
       "DESIGN.md section 4 C08")
 check("C09", "exploration", "runtime monitoring: result oracle vs. simulator directory/stat tables under every packetisation",
       "list/stat replies with boundary 32-bit fields and arbitrary name bytes are cut into WRTEs at random and at every offset; results must equal what the device sent, and the "
-      "stream must be closed afterwards.",
+      "stream must be closed afterwards; slow devices on slow links, replies that precede the request's OKAY, names and field values that are protocol words.",
       "Trusted: the simulator's DENT/STAT encoders (vlib/wire.py).",
       "DESIGN.md section 4 C09")
 check("C10", "exploration", "runtime monitoring: exception-type/reason oracle and virtual-time bound over all FAIL positions relative to the device's OKAYs",
@@ -71,7 +73,8 @@ check("C10", "exploration", "runtime monitoring: exception-type/reason oracle an
 check("C11", "fault_enumeration", "runtime monitoring under a virtual clock: stall injection at every awaited device packet x stall kind x timeout grid; bounded-progress and timeout-argument monitors",
       "Liveness is restated as bounded progress in virtual time. Every operation's fault-free run is recorded, then the device stops cooperating at each packet index in five "
       "ways; the call must end with a timeout error (or the correct result) within K*(read+transport)(+total) virtual seconds and within a transport-call budget, and every "
-      "timeout handed to the transport must respect transport <= read <= total. Wall-clock plays no part in the verdict.",
+      "timeout handed to the transport must respect transport <= read <= total (auth_timeout_s only after the public key was offered). A spin that never reaches the transport is "
+      "bounded by a count of function entries / jumps inside the library (sys.monitoring). Wall-clock plays no part in the verdict.",
       "Trusted: the virtual clock substitution (module attribute `time` of adb_device / adb_device_async) and the cost model of the in-memory transport (a read that finds nothing "
       "advances the clock by its timeout). Not decided: read_timeout_s=None, auth_timeout_s=None with a silent device.",
       "DESIGN.md section 4 C11")
@@ -117,5 +120,5 @@ check("C14", "exploration", "runtime monitoring under the controlled scheduler w
       "Concurrent opens from 2-3 threads (tasks) are preempted at the individual source lines of the id allocation, with the counter pre-set around 0 and 2^32; streams are "
       "kept open while others open. The device-side monitor checks every OPEN id for range and for collision with a live stream. The same OPEN rule is evaluated as a side "
       "observation in every other check's workload.",
-      "Trusted: line granularity (preemption inside one source line, e.g. between the load and the store of `+=`, is not explored); the simulator's notion of a live stream.",
+      "Preemption covers every AdbDevice code object that touches the id counter (found by the names it uses). Trusted: line granularity (preemption inside one source line, e.g. between the load and the store of `+=`, is not explored); the simulator's notion of a live stream.",
       "DESIGN.md section 4 C14")
